@@ -90,13 +90,13 @@ pub const TABLE: &[D] = &[
 
     D { name: "Uni", utf8: true, attrs: &[], skips: &[], pats: &[
         r(r#"r"\p{L}+""#, 2, "Word"), r(r#""[0-9]+""#, 2, "Int"), t(r#""é€""#, 10, "Special"), rc(r#"r"\s""#, 2, Cb::Skip, "Sp"),
-    ], frags: &["é", "€", "é€", "ab", "1", " ", "\u{2003}", "ж", "𝔸", "-", "éé", "€€"] },
+    ], frags: &["é", "€", "é€", "ab", "1", " ", "\u{2003}", "ж", "𝔸", "-", "éé", "€€", "\u{FEFF}"] },
 
     D { name: "StrCom", utf8: true, attrs: &[], skips: &[], pats: &[
         r(r##"r#""([^"\\]|\\.)*""#"##, 4, "S"), rx(r#"r"//[^\n]*""#, 4, Cb::Unit, "allow_greedy = true", "LineComment"),
         r(r#"r"/\*([^*]|\*[^/])*\*/""#, 6, "Block"), t(r#""/""#, 2, "Slash"), r(r#""[a-z]+""#, 2, "Id"),
         rc(r#"r"[ \n]+""#, 2, Cb::Skip, "Sp"),
-    ], frags: &["\"", "\\", "\"a\"", "//", "/*", "*/", "/", "a", "\n", " ", "*", "\"\\\"\"", "// x", "/* y */", "/**/", "\"é\""] },
+    ], frags: &["\"", "\\", "\"a\"", "//", "/*", "*/", "/", "a", "\n", " ", "*", "\"\\\"\"", "// x", "/* y */", "/**/", "\"é\"", "\u{FEFF}"] },
 
     D { name: "Look", utf8: true, attrs: &[], skips: &[], pats: &[
         r(r#"r"a|bc(?-u:\b)""#, 2, "L"), r(r#"r"x+$""#, 2, "XEnd"), r(r#"r"(?m)y+$""#, 2, "YEol"), t(r#""\n""#, 2, "Nl"),
@@ -117,7 +117,7 @@ pub const TABLE: &[D] = &[
         rc(r##"r#""([^"\\\x00-\x1F]|\\(["\\bnfrt/]|u[a-fA-F0-9]{4}))*""#"##, 4, Cb::Borrow, "String"),
         rc(r#"r"[ \t\r\n\f]+""#, 2, Cb::Skip, "Ws"),
     ], frags: &["false", "true", "null", "{", "}", "[", "]", ":", ",", "0", "-1", "1.5", "1e5", "1.5E-3", "1.", "1e", "-", "\"a\"", "\"\\n\"",
-               "\"\\u00e9\"", "\"\\u00", "\"", " ", "\n", "fals", "nul", "tru", "\"é\"", "x:ff", "x:c3"] },
+               "\"\\u00e9\"", "\"\\u00", "\"", " ", "\n", "fals", "nul", "tru", "\"é\"", "x:ff", "x:c3", "x:efbbbf", "x:efbb"] },
 
     // literal of 9+ bytes: the 8-byte batch read path
     D { name: "LongLit", utf8: true, attrs: &[], skips: &[], pats: &[
@@ -144,7 +144,7 @@ pub const TABLE: &[D] = &[
     D { name: "UniBytes", utf8: false, attrs: &[], skips: &[], pats: &[
         r(r#"r"\p{L}+""#, 2, "Word"), r(r#""[0-9]+""#, 2, "Int"), t(r#""é€""#, 10, "Special"), rc(r#"r"\s""#, 2, Cb::Skip, "Sp"),
         r(r#"b"[\x80-\xFF]""#, 1, "Byte"),
-    ], frags: &["é", "€", "é€", "ab", "1", " ", "ж", "𝔸", "-", "x:c3", "x:e2", "x:e282", "x:f09d94", "x:a9", "x:ff", "x:c3a9", "x:e282ac"] },
+    ], frags: &["é", "€", "é€", "ab", "1", " ", "ж", "𝔸", "-", "x:c3", "x:e2", "x:e282", "x:f09d94", "x:a9", "x:ff", "x:c3a9", "x:e282ac", "x:efbbbf", "x:ef", "x:efbb"] },
 
     D { name: "Filt", utf8: true, attrs: &[], skips: &[], pats: &[
         rc(r#""[a-z]+""#, 2, Cb::FilterEven, "Word"), rc(r#""[0-9]+""#, 2, Cb::OptOdd, "Digits"), rc(r#""!+""#, 2, Cb::BoolShort, "Bangs"),
